@@ -6,19 +6,19 @@ sys.path.insert(0, os.path.join(ROOT, "lib"))
 import registry
 
 TECH = {
-    "C01": "Verus contracts on the real text of every chunk decoder, the chunk framing (Chunk::read / read_all), the file header and the public accessors (unbounded payloads, field-by-field vs the file-format layout); Kani contracts on reader primitives and fixed-shape decoders; bounded-exec round trip",
+    "C01": "Verus contracts on the real text of every chunk decoder, the chunk framing (Chunk::read / read_all), the file header and the public accessors (unbounded payloads, field-by-field vs the file-format layout); Kani contracts on reader primitives and fixed-shape decoders; bounded-exec round trip; Verus contracts on layer_by_name (lowest-numbered match), the layer iterator, get_tag, add_external_files and AseReader::string",
     "C02": "Verus functional contracts on the real frame_image / write_cel / both rasterisers (frame = fold of the cels in layer order over transparent black, hidden layers skipped; unbounded) and on CelsData::add_cel; Kani contract for mul_un8; bounded-exec frames vs an independent composition spec",
     "C03": "Kani function contracts: leaves vs Aseprite's macros over full domains, mode wrappers modulo uninterpreted callees; f64 HSL kernels bounded-exec",
     "C04": "Verus contracts (Ok iff well-formed, no overflow / index error / panic site reachable) on the real decoders, chunk framing, header, frame dispatch and validation stage; Kani totality contracts per fixed shape; fault enumeration in an isolated child process",
-    "C05": "Verus assume/guarantee chain on the real text: the validation stage (ParseInfo::validate, CelsData::validate, RawCel::validate, LayersData::validate, TilesetsById::validate) delivers what the renderer (frame_image, write_cel, layer_image, rasterisers, tile lookups) requires, whose panic / expect sites are proved unreachable; fault enumeration through every accessor as the end-to-end stand-in",
-    "C06": "Verus contracts on the per-pixel conversion rules, RawPixels::validate, the cel decoders and the raw rasteriser; Kani contracts on cel payload shapes; bounded-exec cel images",
-    "C07": "Verus contracts for the encoding-independent facts (CelsData::add_cel touches exactly one slot; old/new chunk count in parse_frame); Kani contracts for ignorable chunk codes and trailing bytes; bounded-exec over encoding-choice vectors",
-    "C08": "Verus functional contract on the real tilemap rasteriser (every canvas pixel written exactly once with the right tileset pixel), tile lookup / slicing / offsets and the tileset decoder; Kani tile word decode; bounded-exec view agreement",
+    "C05": "Verus assume/guarantee chain on the real text: the validation stage (ParseInfo::validate, CelsData::validate, RawCel::validate, LayersData::validate, TilesetsById::validate) delivers what the renderer (frame_image, write_cel, layer_image, rasterisers, tile lookups) requires, whose panic / expect sites are proved unreachable; fault enumeration through every accessor as the end-to-end stand-in; Verus contracts on the bulk readers (take_bytes / unzip) and the pixel / tile readers (from_raw, from_compressed, Tiles::unzip, parse_raw_cel, parse_compressed_cel, Tileset::parse_chunk): exactly the declared number of pixels / tiles, preserved by validation (lemma), under which Tileset::image / tile_image are proved panic-free with their documented sizes",
+    "C06": "Verus contracts on the per-pixel conversion rules, RawPixels::validate, the cel decoders and the raw rasteriser; Kani contracts on cel payload shapes; bounded-exec cel images; Verus contracts on RawPixels::from_bytes / from_raw / from_compressed and the per-pixel constructors (how stored bytes become pixels, for every length)",
+    "C07": "Verus contracts for the encoding-independent facts (CelsData::add_cel touches exactly one slot; old/new chunk count in parse_frame); Kani contracts for ignorable chunk codes and trailing bytes; bounded-exec over encoding-choice vectors; Verus: take_bytes / from_raw succeed whatever follows the declared bytes",
+    "C08": "Verus functional contract on the real tilemap rasteriser (every canvas pixel written exactly once with the right tileset pixel), tile lookup / slicing / offsets and the tileset decoder; Kani tile word decode; bounded-exec view agreement; Verus contracts on Tileset::image / tile_image and a client lemma for 'the full image is the tile images stacked in index order'; Verus contract on Tiles::unzip",
     "C09": "Verus proofs on the real compute_parents / from_vec / Layer::is_visible / Layer::parent / frame_image (visibility gate) (unbounded) + exhaustive execution of all forests <= 6/8 layers",
     "C10": "Verus contracts on the real ParseInfo attachment state machine and parse_frame (fold over the chunk sequence, unbounded) + exhaustive bounded exploration of chunk sequences; Verus/Kani contract on the user-data decoder",
     "C11": "Verus contracts on the real new and legacy (0x0004 / 0x0011) palette decoders, 6-bit scaling, validate_indexed_pixels and RawPixels::validate (unbounded); Kani shapes; bounded-exec precedence / validation",
-    "C13": "Verus contracts: reader-contract based 'Ok iff every declared byte is present' for chunk framing, decoders and header; Kani contracts on the reader primitives (error iff short); every cut offset executed",
-    "C14": "Kani: AseReader primitives over a scripted reader for every split into read() sizes and every Interrupted placement, hard error anywhere; Kani contract on error mapping; bounded-exec scripted readers on whole files",
+    "C13": "Verus contracts: reader-contract based 'Ok iff every declared byte is present' for chunk framing, decoders and header; Kani contracts on the reader primitives (error iff short); every cut offset executed; Verus contracts on read_bytes / take_bytes / unzip / string / skip_reserved over a trusted model of Read: fewer bytes than declared is an error",
+    "C14": "Kani: AseReader primitives over a scripted reader for every split into read() sizes and every Interrupted placement, hard error anywhere; Kani contract on error mapping; bounded-exec scripted readers on whole files; Verus contract on read_bytes: every Err is the I/O error",
     "C15": "Verus / Kani contracts on every refusing branch over its whole code domain (pixel ratio and colour depth in read_aseprite, chunk type, layer type, blend mode, cel type, animation direction, colour profile, bits per tile, tileset without pixels) + bounded-exec refusals at every position",
     "C16": "rustc trait solver (Send+Sync) + overflow-freedom obligations of the Verus/Kani contracts (no result depends on wrapping) + determinism / thread sanity runs incl. the palette mapper",
     "C17": "Kani: laws proved per mode from the contracts of normal/merge (callees uninterpreted) + leaf range contracts; Verus: both rasterisers hand pixels and the opacity product to the blend function unchanged",
